@@ -98,7 +98,7 @@ def _rad_sum(m, th, ph, exact=False):
             elems = [(pt, d, u)]
             if ground:
                 mir = np.array([1, 1, -1.0])
-                elems.append((pt * mir, d * np.array([-1, -1, 1.0]), u * np.array([-1, -1, 1.0])))
+                elems.append((pt * mir, d * np.array([-1, -1, 1.0]), u * mir))     # the image current flips, the image path mirrors
             for (q, dv, uv) in elems:
                 if exact:
                     a = k0 * np.dot(uv, rh)
